@@ -95,7 +95,14 @@ def rnd_tra(rng, scale=5.0):
     return [(rng.unit() * 2 - 1) * scale for _ in range(3)]
 
 
-def rnd_matrix(rng):
+def snap_scale(rng, tol):
+    """offset / angle log-uniform in [0.1 tol, 100 sqrt(tol)]: the range over which the
+    SurfaceSimplifier snapping rules must switch off"""
+    lo, hi = math.log(0.1 * tol), math.log(100.0 * math.sqrt(tol))
+    return math.exp(lo + (hi - lo) * rng.unit())
+
+
+def rnd_matrix(rng, tol=1e-5):
     """row-major 3x3 orthonormal matrix: rotations, axis-aligned signed permutations (exact 0/±1
     entries), reflections (det = -1), tiny rotations (snapping)"""
     k = rng.below(8)
@@ -114,7 +121,7 @@ def rnd_matrix(rng):
     x, y, z = [c / n for c in ax]
     th = rng.unit() * 2 * math.pi
     if k == 2:
-        th = (rng.unit() - 0.5) * 4e-5
+        th = snap_scale(rng, tol) * rng.choice([1.0, -1.0])
     elif k == 3:
         th = rng.choice([0.25, 0.5, 0.75, 0.125]) * 2 * math.pi
     c, sn = math.cos(th), math.sin(th)
@@ -128,14 +135,85 @@ def rnd_matrix(rng):
     return R
 
 
-def rnd_xform(rng, scale=5.0):
-    """None | translation [3] | {"R": [9], "t": [3]}"""
+def snap_translation(rng, reg, tol):
+    """translation that puts a centre / axis / apex / face within a snapping-scale offset m of the
+    origin (or of an axis): returns (translation, m)"""
+    m = snap_scale(rng, tol)
+    t = [0.0, 0.0, 0.0]
+    k = rng.below(3)
+    if k == 0:          # along one axis
+        t[rng.below(3)] = m * rng.choice([1.0, -1.0])
+    elif k == 1:        # random direction
+        v = [rng.unit() * 2 - 1 for _ in range(3)]
+        n = math.sqrt(sum(c * c for c in v)) or 1.0
+        t = [m * c / n for c in v]
+    else:               # a face plane lands at distance m from the origin
+        q, ty = reg["p"], reg["type"]
+        if ty == "box":
+            a = rng.below(3)
+            t[a] = rng.choice([1.0, -1.0]) * q[a] + m
+        elif ty in ("cyl", "prism", "genprism", "cone"):
+            hh = q[1] if ty in ("cyl", "prism") else q[2] if ty == "cone" else q[0]
+            t[2] = rng.choice([1.0, -1.0]) * hh + m
+        else:
+            t[rng.below(3)] = m
+    return t, m
+
+
+def rnd_xform(rng, scale=5.0, reg=None, tol=1e-5):
+    """None | translation [3] | {"R": [9], "t": [3]}; with a region, one case in four is a
+    snapping-scale offset (recorded in reg["_snap"])"""
+    if reg is not None and rng.chance(1, 4):
+        t, m = snap_translation(rng, reg, tol)
+        reg["_snap"] = m
+        if rng.chance(1, 4):
+            return {"R": rnd_matrix(rng, tol), "t": t}
+        return t
     if rng.chance(2, 5):
         t = rnd_tra(rng, scale) or [0.0, 0.0, 0.0]
         if rng.chance(1, 4):
             t = [0.0, 0.0, 0.0]
-        return {"R": rnd_matrix(rng), "t": t}
+        R = rnd_matrix(rng, tol)
+        return {"R": R, "t": t}
     return rnd_tra(rng, scale)
+
+
+def near_surface_probes(rng, nodes, centre, scale, dmin, dmax, per_surface=3):
+    """points at a distance in [dmin, dmax] (log-uniform) on either side of each emitted surface:
+    Newton projection of a random nearby point onto the surface, then a step along the gradient"""
+    from checks import c12
+    pts = []
+    if not (dmax > dmin > 0):
+        return pts
+    for _, _, tag, d in nodes:
+        if tag == "inv":
+            continue
+        for _ in range(per_surface):
+            p = [centre[i] + (rng.unit() * 2 - 1) * scale for i in range(3)]
+            h = 1e-6 * max(scale, 1e-3)
+            ok = True
+            g = [0.0, 0.0, 1.0]
+            for _it in range(8):
+                f = c12.quadric(tag, d, p)
+                g = [(c12.quadric(tag, d, [p[j] + (h if j == i else 0.0) for j in range(3)])
+                      - c12.quadric(tag, d, [p[j] - (h if j == i else 0.0) for j in range(3)])) / (2 * h)
+                     for i in range(3)]
+                g2 = sum(c * c for c in g)
+                if not (g2 > 0) or not math.isfinite(g2) or not math.isfinite(f):
+                    ok = False
+                    break
+                p = [p[i] - f / g2 * g[i] for i in range(3)]
+            if not ok:
+                continue
+            gn = math.sqrt(sum(c * c for c in g))
+            if not (gn > 0):
+                continue
+            delta = math.exp(math.log(dmin) + (math.log(dmax) - math.log(dmin)) * rng.unit())
+            delta *= rng.choice([1.0, -1.0])
+            q = [p[i] + delta * g[i] / gn for i in range(3)]
+            if all(math.isfinite(v) for v in q):
+                pts.append(q)
+    return pts
 
 
 def xf_up(tra, p):
@@ -246,7 +324,9 @@ def gen_genprism(rng, thin=True):
     """GenPrism / GenTrap: trd, skewed trap, twisted n-gon, pyramid (degenerate face); both
     vertex orders"""
     hz = rnd_len(rng, thin)
-    k = rng.below(6)
+    k = rng.below(7)
+    if k == 6:
+        k = 5
     if k == 0:      # trd: two centred rectangles
         a, b, c, d = (rnd_len(rng, False) for _ in range(4))
         lo = [[a, -b], [a, b], [-a, b], [-a, -b]]
@@ -296,6 +376,23 @@ def genprism_polys(reg):
     if orient(lo) == -1 or orient(hi) == -1:
         lo, hi = lo[::-1], hi[::-1]
     return hz, lo, hi
+
+
+def genprism_twisted_faces(reg):
+    """number of side faces whose lower and upper edges are not parallel (angle > 1e-3 rad) and
+    not degenerate: these are ruled surfaces, not planes"""
+    hz, lo, hi = genprism_polys(reg)
+    n, cnt = len(lo), 0
+    for i in range(n):
+        j = (i + 1) % n
+        a = [lo[j][0] - lo[i][0], lo[j][1] - lo[i][1]]
+        b = [hi[j][0] - hi[i][0], hi[j][1] - hi[i][1]]
+        na, nb = math.hypot(*a), math.hypot(*b)
+        if na == 0 or nb == 0:
+            continue
+        if abs(a[0] * b[1] - a[1] * b[0]) / (na * nb) > 1e-3:
+            cnt += 1
+    return cnt
 
 
 def genprism_mem(reg, p):
@@ -538,6 +635,18 @@ def local_point(p, tra):
 # --------------------------------------------------------------------------- objects (e2e)
 def gen_object(rng, depth=0):
     """object tree for the end-to-end oracle"""
+    if depth < 2 and rng.chance(1, 6):
+        j = rng.below(4)
+        if j == 0:
+            return {"k": "trd", "hz": rnd_len(rng, False), "lo": [rnd_len(rng, False), rnd_len(rng, False)],
+                    "hi": [rnd_len(rng, False), rnd_len(rng, False)]}
+        if j == 1:
+            s_ = rnd_len(rng, False)
+            faces = [(s_ * (0.5 + rng.unit()), s_ * (0.5 + rng.unit()), s_ * (0.5 + rng.unit()),
+                      (rng.unit() - 0.5) * 0.3) for _ in range(2)]
+            return {"k": "trap", "hz": rnd_len(rng, False), "th": rng.unit() * 0.15, "ph": rng.unit() * 0.999,
+                    "faces": faces}
+        return gen_poly(rng, prism=(j == 3))
     k = rng.below(10) if depth < 2 else rng.below(5)
     # the parallelepiped has its own (known) findings: only as a top-level shape
     kinds = ["box", "sphere", "cyl", "cone", "ellipsoid", "prism", "genprism"] + (
@@ -577,6 +686,92 @@ def gen_object(rng, depth=0):
     return {"k": "sub", "a": gen_object(rng, depth + 1), "b": gen_object(rng, depth + 1)}
 
 
+def trd_region(hz, lo, hi):
+    """GenPrism::from_trd vertices"""
+    l = [[lo[0], -lo[1]], [lo[0], lo[1]], [-lo[0], lo[1]], [-lo[0], -lo[1]]]
+    h = [[hi[0], -hi[1]], [hi[0], hi[1]], [-hi[0], hi[1]], [-hi[0], -hi[1]]]
+    return {"type": "genprism", "n": 4, "p": [hz] + [v for q in l for v in q] + [v for q in h for v in q]}
+
+
+def trap_region(hz, th, ph, faces):
+    """GenPrism::from_trap vertices; faces = [(hy, hx_lo, hx_hi, alpha)] * 2"""
+    tt = math.tan(2 * math.pi * th)
+    dx, dy = hz * tt * math.cos(2 * math.pi * ph), hz * tt * math.sin(2 * math.pi * ph)
+    polys = []
+    for i, (hy, hxl, hxh, al) in enumerate(faces):
+        xo, yo = (-dx, -dy) if i == 0 else (dx, dy)
+        sh = math.tan(2 * math.pi * al) * hy
+        polys.append([[xo - sh + hxl, yo - hy], [xo + sh + hxh, yo + hy], [xo + sh - hxh, yo + hy],
+                      [xo - sh - hxl, yo - hy]])
+    return {"type": "genprism", "n": 4,
+            "p": [hz] + [v for q in polys[0] for v in q] + [v for q in polys[1] for v in q]}
+
+
+def gen_poly(rng, prism):
+    """polycone / polyprism through the or_solid factories: single and multi segment, with or
+    without inner radii and enclosed angle, zlo + zhi of both signs"""
+    nseg = rng.choice([1, 1, 2, 3])
+    z0 = (rng.unit() * 2 - 1) * 3.0
+    if rng.chance(1, 5):
+        z0 = 0.0
+    if prism:
+        z, outer = [], []
+        zz = z0
+        for _ in range(nseg):
+            r = 0.3 + 2.0 * rng.unit()
+            h = 0.2 + 1.5 * rng.unit()
+            z += [zz, zz + h]
+            outer += [r, r]
+            zz += h
+        inner = [v * (0.3 + 0.5 * rng.unit()) for v in outer] if rng.chance(1, 2) else None
+        if inner:      # constant per segment
+            inner = [inner[2 * (i // 2)] for i in range(len(inner))]
+        if nseg == 1 and rng.chance(1, 3) and not inner:
+            pass
+    else:
+        z = [z0]
+        for _ in range(nseg):
+            z.append(z[-1] + 0.2 + 1.5 * rng.unit())
+        outer = [0.3 + 2.0 * rng.unit() for _ in z]
+        if rng.chance(1, 4):
+            outer[rng.below(len(outer))] = 0.0 if rng.chance(1, 2) else outer[0]
+        if all(v == 0.0 for v in outer[:2]):
+            outer[0] = 0.5
+        inner = None
+        if rng.chance(1, 2) and all(v > 0.05 for v in outer):
+            inner = [v * (0.3 + 0.5 * rng.unit()) for v in outer]
+    if nseg == 1 and rng.chance(1, 3):      # symmetric about z = 0: no translation branch
+        h = (z[-1] - z[0]) / 2
+        z = [-h, h]
+    angle = None
+    if rng.chance(1, 3):
+        angle = [rng.unit() * 0.999, rng.choice([0.25, 0.5, 0.75, 0.1 + 0.85 * rng.unit()])]
+    o = {"k": "pprism" if prism else "pcone", "z": z, "outer": outer, "inner": inner, "angle": angle}
+    if prism:
+        o["n"] = rng.choice([3, 4, 6, 8])
+        o["orient"] = rng.choice([0.0, 0.5, rng.unit() * 0.999])
+    return o
+
+
+def poly_segments(o):
+    """(region, inner region or None, z centre) per non-degenerate segment"""
+    out = []
+    z, outer, inner = o["z"], o["outer"], o["inner"]
+    for i in range(len(z) - 1):
+        zlo, zhi = z[i], z[i + 1]
+        if abs(zhi - zlo) < 1e-5 * max(abs(zlo), abs(zhi), 0.01):
+            continue
+        hz = (zhi - zlo) / 2
+        if o["k"] == "pcone":
+            reg = {"type": "cone", "p": [outer[i], outer[i + 1], hz]}
+            ireg = {"type": "cone", "p": [inner[i], inner[i + 1], hz]} if inner else None
+        else:
+            reg = {"type": "prism", "n": o["n"], "p": [outer[i], hz, o["orient"]]}
+            ireg = {"type": "prism", "n": o["n"], "p": [inner[i], hz, o["orient"]]} if inner else None
+        out.append((reg, ireg, zlo + hz))
+    return out
+
+
 def region_plain_words(reg):
     if reg["type"] == "genprism":
         return "genprism %s %d %s" % (hx(reg["p"][0]), reg["n"], " ".join(hx(v) for v in reg["p"][1:]))
@@ -593,6 +788,19 @@ def region_params_words(reg):
 
 def object_words(o):
     k = o["k"]
+    if k == "trd":
+        return "trd %s" % " ".join(hx(v) for v in [o["hz"]] + o["lo"] + o["hi"])
+    if k == "trap":
+        return "trap %s %s" % (" ".join(hx(v) for v in (o["hz"], o["th"], o["ph"])),
+                               " ".join(hx(v) for f in o["faces"] for v in f))
+    if k in ("pcone", "pprism"):
+        w = "%s %d %s %s" % ("polycone" if k == "pcone" else "polyprism", len(o["z"]),
+                             " ".join(hx(v) for v in o["z"]), " ".join(hx(v) for v in o["outer"]))
+        w += " inner " + " ".join(hx(v) for v in o["inner"]) if o["inner"] else " noinner"
+        w += " angle %s %s" % (hx(o["angle"][0]), hx(o["angle"][1])) if o["angle"] else " noangle"
+        if k == "pprism":
+            w += " %d %s" % (o["n"], hx(o["orient"]))
+        return w
     if k == "shape":
         return "shape " + region_plain_words(o["r"])
     if k == "solid":
@@ -624,6 +832,21 @@ def wedge_of_angle(angle):
 
 def object_mem(o, p):
     k = o["k"]
+    if k == "trd":
+        return region_mem(trd_region(o["hz"], o["lo"], o["hi"]), p)
+    if k == "trap":
+        return region_mem(trap_region(o["hz"], o["th"], o["ph"], o["faces"]), p)
+    if k in ("pcone", "pprism"):
+        r = False
+        for reg, ireg, zc in poly_segments(o):
+            q = [p[0], p[1], p[2] - zc]
+            if region_mem(reg, q) and not (ireg is not None and region_mem(ireg, q)):
+                r = True
+        if o["angle"]:
+            inside, w = wedge_of_angle(o["angle"])
+            m = region_mem(w, p)
+            r = r and (m if inside else not m)
+        return r
     if k == "shape":
         return region_mem(o["r"], p)
     if k == "solid":
@@ -652,7 +875,19 @@ def object_leaves(o, tra=None, out=None):
     """(region, accumulated translation) of every leaf region"""
     out = [] if out is None else out
     k = o["k"]
-    if k == "shape":
+    if k == "trd":
+        out.append((trd_region(o["hz"], o["lo"], o["hi"]), tra))
+    elif k == "trap":
+        out.append((trap_region(o["hz"], o["th"], o["ph"], o["faces"]), tra))
+    elif k in ("pcone", "pprism"):
+        for reg, ireg, zc in poly_segments(o):
+            t = xf_compose(tra, [0.0, 0.0, zc])
+            out.append((reg, t))
+            if ireg is not None:
+                out.append((ireg, t))
+        if o["angle"]:
+            out.append((wedge_of_angle(o["angle"])[1], tra))
+    elif k == "shape":
         out.append((o["r"], tra))
     elif k == "solid":
         out.append((o["r"], tra))
@@ -698,7 +933,8 @@ def run_build_diff(ctx, exe, model, sc, n, stats, findings):
     cases = []
     for _ in range(n):
         reg = gen_region(rng)
-        cases.append((reg, rnd_tol(rng), rnd_xform(rng, 2 * region_extent(reg) + 1)))
+        tol_ = rnd_tol(rng)
+        cases.append((reg, tol_, rnd_xform(rng, 2 * region_extent(reg) + 1, reg, tol_)))
     # deterministic cases: the crash reported by another agent, degenerate / snapping cases
     fixed = [
         ({"type": "ellipsoid", "p": [0.04, 0.04, 0.04]}, 1e-5, None),
@@ -800,6 +1036,10 @@ def run_member(ctx, exe, model, sc, cases, lines_build, oh_build, rng, findings,
         if b is None:
             continue
         pts = probes_for(rng, reg, tra, npts)
+        e_ = region_extent(reg)
+        margin_ = 10 * tol * max(1.0, e_ + xf_size(tra))
+        pts += near_surface_probes(rng, b["nodes"], xf_up(tra, [0.0, 0.0, 0.0]), 1.2 * e_,
+                                   1.2 * margin_, max(4.0 * reg.get("_snap", 0.0), 30.0 * margin_))
         lines.append("member %s %s | %s" % (head_words(tol, tra), region_words(reg, sc),
                                             " ".join(hx(v) for p in pts for v in p)))
         meta.append((reg, tol, tra, b, pts))
@@ -845,6 +1085,13 @@ def run_member(ctx, exe, model, sc, cases, lines_build, oh_build, rng, findings,
                         tag == "sq" for _, _, tag, _ in b["nodes"]) and not all(
                         v in (0.0, 1.0, -1.0) for v in tra["R"]):
                     why = "ellipsoid-gq-snap"
+                elif reg["type"] in ("cyl", "cone", "prism", "box", "sphere") and isinstance(tra, dict) and any(
+                        tag == "sq" for _, _, tag, _ in b["nodes"]) and not all(
+                        v in (0.0, 1.0, -1.0) for v in tra["R"]):
+                    why = "gq-snap"
+                elif reg["type"] == "genprism" and genprism_twisted_faces(reg) > sum(
+                        1 for _, _, tag, _ in b["nodes"] if tag in ("gq", "sq")):
+                    why = "genprism-planar"
                 findings.append(("emission" + ("/" + why if why else ""), reg, tol, tra, l, {
                     "point": p, "point_local": lp, "analytic_member": mem, "real_csg_sense": got,
                     "emitted": [(sn, tag, d) for sn, _, tag, d in b["nodes"]]}))
@@ -946,6 +1193,23 @@ def run_e2e(ctx, exe, sc, n, npts, findings, stats):
          "b": {"k": "shape", "r": {"type": "sphere", "p": [1.0]}}},
         {"k": "shape", "r": {"type": "ellipsoid", "p": [10.0, 0.01, 0.01]}},
         {"k": "shape", "r": {"type": "ppiped", "p": [1.0, 2.0, 3.0, -0.1, 0.1, 0.6]}},
+        # bottom-apex pyramid, +z polygon listed clockwise / counter-clockwise
+        {"k": "shape", "r": {"type": "genprism", "n": 4, "p": [1.0] + [0.0, 0.0] * 4
+                             + [1.0, -1.0, -1.0, -1.0, -1.0, 1.0, 1.0, 1.0]}},
+        {"k": "shape", "r": {"type": "genprism", "n": 4, "p": [1.0] + [0.0, 0.0] * 4
+                             + [1.0, -1.0, 1.0, 1.0, -1.0, 1.0, -1.0, -1.0]}},
+        # top-apex tetrahedron, clockwise base; wedge (collinear lower edge)
+        {"k": "shape", "r": {"type": "genprism", "n": 3, "p": [0.5, 1.0, 0.0, -1.0, -1.0, -1.0, 1.0]
+                             + [0.2, 0.1] * 3}},
+        {"k": "shape", "r": {"type": "genprism", "n": 4, "p": [1.0, -1.0, 0.0, 1.0, 0.0, 1.0, 0.0, -1.0, 0.0,
+                                                                 -1.0, -1.0, -1.0, 1.0, 1.0, 1.0, 1.0, -1.0]}},
+        {"k": "trd", "hz": 3.0, "lo": [1.0, 1.0], "hi": [2.0, 2.0]},
+        {"k": "trap", "hz": 40.0, "th": 0.02, "ph": 0.05, "faces": [(20.0, 10.0, 10.0, 0.01), (30.0, 15.0, 15.0, 0.01)]},
+        {"k": "pcone", "z": [-3.0, -1.0], "outer": [1.0, 2.0], "inner": None, "angle": None},
+        {"k": "pcone", "z": [1.0, 2.0], "outer": [2.0, 1.0], "inner": [0.5, 0.25], "angle": [0.1, 0.3]},
+        {"k": "pprism", "z": [-4.0, -2.0], "outer": [1.0, 1.0], "inner": None, "angle": None, "n": 6, "orient": 0.0},
+        {"k": "pcone", "z": [-2.0, -1.0, 0.5, 0.5, 2.0], "outer": [1.0, 2.0, 2.0, 1.0, 1.5],
+         "inner": [0.5, 0.5, 0.5, 0.5, 0.5], "angle": None},
     ]
     for _ in range(n):
         objs.append(gen_object(rng))
@@ -1057,6 +1321,10 @@ def classify(kind, reg, info):
         return "bbox-interior-unsound:" + t
     if kind == "emission/ppiped-y":
         return "ppiped-y-extent-cos-alpha"
+    if kind == "emission/gq-snap":
+        return "rotated-quadric-cross-terms-dropped"
+    if kind == "emission/genprism-planar":
+        return "genprism-twisted-face-emitted-planar"
     if kind == "emission/ellipsoid-gq-snap":
         return "ellipsoid-rotated-cross-terms-dropped"
     if kind in ("emission/ellipsoid-cyl", "bbox-interior/ellipsoid-cyl"):
